@@ -302,11 +302,11 @@ func (g *qGen) subSrc(w *qWorld) qSrc {
 	return qSrc{sql: sql, coq: coq, cols: names, tables: 1, card: inner.card}
 }
 
-// A JOIN B USING (..) and A NATURAL JOIN B over two sources that share column names.  The model has no
-// USING: its meaning is spelled out here as the documented one - join on the equality of the named columns,
-// then one merged column per name (the left operand's, the right operand's for RIGHT joins, the other side's
-// value where that is NULL) followed by the remaining columns of both sides in their order - and the
-// implementation is compared with that.  The merged columns lose their table qualifier.
+// A JOIN B USING (..) and A NATURAL JOIN B over two sources that share column names.  The model states their
+// meaning as a derived form (Model/Using.v src_using: join on the equality of the named columns, one merged
+// column per name, then the remaining columns; theorem C03_using_join_merges_the_named_columns_once); the
+// harness only computes the pairs of positions from the names and the SQL names of the result columns (the
+// merged columns lose their table qualifier).
 func (g *qGen) usingSrc(w *qWorld) (qSrc, bool) {
 	l, r := g.tableSrc(w), g.tableSrc(w)
 	base := func(c string) string { return c[strings.Index(c, ".")+1:] }
@@ -331,31 +331,20 @@ func (g *qGen) usingSrc(w *qWorld) (qSrc, bool) {
 		{"RIGHT JOIN", "JRight", "RIGHT"}, {"FULL JOIN", "JFull", "FULL"}, {"FULL OUTER JOIN", "JFull", "FULL OUTER"}}
 	k := kinds[g.r.Intn(len(kinds))]
 	nl := len(l.cols)
-	var names, conds, items []string
+	var names, pairs []string
 	taken := map[int]bool{}
 	var cols []string
 	for _, u := range using {
-		li, ri := u[0], nl+u[1]
-		inc, alt := li, ri
-		if k[1] == "JRight" {
-			inc, alt = ri, li
-		}
-		taken[li], taken[ri] = true, true
+		taken[u[0]], taken[nl+u[1]] = true, true
 		names = append(names, base(l.cols[u[0]]))
-		conds = append(conds, fmt.Sprintf("(ECmp OpEq (ECol %d) (ECol %d))", li, ri))
-		items = append(items, fmt.Sprintf("SExpr (ECase None [(EIs false (ECol %d) (ELit VNull), ECol %d)] (Some (ECol %d)))", inc, alt, inc))
+		pairs = append(pairs, fmt.Sprintf("(%d, %d)%%nat", u[0], u[1]))
 		cols = append(cols, base(l.cols[u[0]]))
 	}
 	all := append(append([]string{}, l.cols...), r.cols...)
 	for i, c := range all {
 		if !taken[i] {
-			items = append(items, fmt.Sprintf("SExpr (ECol %d)", i))
 			cols = append(cols, c)
 		}
-	}
-	cond := conds[0]
-	for _, c := range conds[1:] {
-		cond = fmt.Sprintf("(EAnd %s %s)", cond, c)
 	}
 	var sql string
 	if natural {
@@ -367,7 +356,7 @@ func (g *qGen) usingSrc(w *qWorld) (qSrc, bool) {
 	} else {
 		sql = l.sql + " " + k[0] + " " + r.sql + " USING (" + strings.Join(names, ", ") + ")"
 	}
-	coq := fmt.Sprintf("(SrcSub (Q (BSelect (SrcJoin %s %s %s (Some %s)) None None None %s false) [] None None))", k[1], l.coq, r.coq, cond, coqList(items))
+	coq := fmt.Sprintf("(src_using %s %s %s %s)", k[1], l.coq, r.coq, coqList(pairs))
 	return qSrc{sql: sql, coq: coq, cols: cols, joins: 1, tables: 2, card: l.card*r.card + l.card + r.card}, true
 }
 
